@@ -187,12 +187,18 @@ def check_par_wrap(project: Project, rep):
     I.cfg.flags["stub_func"] = {TR: stub}
     X, Y = dgm_input("X"), dgm_input("Y")
 
+    inexact = []
+
     def run(arg, n_jobs):
         del calls[:]
+        n_um, n_lo = len(I.unmodelled), len(I.lossy)
         try:
             r = I.call_function(tr, [obj, arg], {"n_jobs": n_jobs, "skew": Sc(sym.Sym("skew"))}, None)
         except Exception as ex:
             return None, [], f"{type(ex).__name__}: {ex}"
+        if len(I.unmodelled) > n_um or len(I.lossy) > n_lo:
+            why = I.lossy[n_lo]["why"] if len(I.lossy) > n_lo else "unmodelled value: " + I.unmodelled[n_um]["tag"]
+            inexact.append(why)
         return r, [dict(c) for c in calls], None
 
     def which(c):
@@ -208,6 +214,8 @@ def check_par_wrap(project: Project, rep):
     r4, c4, e4 = run(Seq([X, Y], "list"), par)
     r5, c5, e5 = run(X, par)
     err = e1 or e2 or e3 or e4 or e5
+    if not err and inexact:
+        err = "transform could not be followed exactly (" + inexact[0] + "): which diagram reaches the per-diagram routine is not decided"
     if err:
         rep.unmodelled("AD-WRAP", tr, tr.node, f"symbolic execution of transform failed: {err}"[:200])
         rep.unmodelled("AD-PAR", tr, tr.node, "symbolic execution of transform failed")
